@@ -70,3 +70,11 @@ Lemma ldqE_wire E b q : ldqE E b q = ldq_be b q.
 Proof. apply (ldq_wire E _ (helpers_ok E)). Qed.
 Lemma stqE_wire E b q v : stqE E b q v = stq_be b q v.
 Proof. apply (stq_wire E _ (helpers_ok E)). Qed.
+
+(* typed 16/32/64-bit accesses carry wire order on either host *)
+Definition ldwE (E:endian) := Host.ldw E (helpers_of E).
+Definition stwE (E:endian) := Host.stw E (helpers_of E).
+Lemma ldwE_wire E w b a : ldwE E w b a = be_of (slice b a (wbytes w)).
+Proof. apply (ldw_wire E _ (helpers_ok E)). Qed.
+Lemma stwE_wire E w b a v : stwE E w b a v = upd b a (be_bytes (wbytes w) v).
+Proof. apply (stw_wire E _ (helpers_ok E)). Qed.
